@@ -338,10 +338,28 @@ struct CtxMO { int mut = 0; int tag = 9; CtxMO() = default; CtxMO(const CtxMO&) 
 inline thread_local const void* tl_ctx_addr = nullptr;
 
 // contextual rule functor (attached with >>=): logs which object it was handed (identity, constness), mutates it if allowed
+template<typename T> struct is_ctx : std::bool_constant<std::is_same_v<std::decay_t<T>, Ctx> || std::is_same_v<std::decay_t<T>, CtxMO> || std::is_same_v<std::decay_t<T>, ctpg::no_type>> {};
+template<typename... X> struct first_is_ctx : std::false_type {};
+template<typename X0, typename... X> struct first_is_ctx<X0, X...> : is_ctx<X0> {};
 struct RuleFC
 {
     int r;
-    template<typename C, typename... A>
+    // called WITHOUT a context although attached with >>= : logged as a contextual call that saw no caller object
+    template<typename... A, std::enable_if_t<!first_is_ctx<A...>::value, int> = 0>
+    Node operator()(A&&... a) const
+    {
+        auto& L = tl_log;
+        auto tr = std::make_shared<Tree>();
+        tr->kind = 1; tr->sym = r;
+        std::vector<long> ids, lines, cols;
+        (take_arg(*tr, ids, lines, cols, std::move(a)), ...);
+        tr->id = L.next_id++;
+        long lv = (0 + ... + (std::is_lvalue_reference_v<A> ? 1 : 0));
+        Event e; e.k = "ccall"; e.a = { r, tr->id, -1, 0, lv }; e.lst = { ids, lines, cols };
+        L.add(std::move(e));
+        return Node(tr);
+    }
+    template<typename C, typename... A, std::enable_if_t<is_ctx<C>::value, int> = 0>
     Node operator()(C&& ctx, A&&... a) const
     {
         auto& L = tl_log;
